@@ -61,7 +61,7 @@ def label_pattern(draw, n, K, task, min_labeled=0, max_labeled=None):
 
 @st.composite
 def candidates(draw, X, yid, ent, allow_feat=True, force=None,
-               wrapper=False):
+               wrapper=False, unsorted_idx=False):
     n = len(yid)
     unl = [i for i in range(n) if yid[i] is None]
     modes = ["none", "idx_unl", "idx_unl"]
@@ -72,14 +72,23 @@ def candidates(draw, X, yid, ent, allow_feat=True, force=None,
     mode = force or draw(st.sampled_from(modes))
     if mode == "none":
         return {"mode": "none"}, "none"
+    def messy(sub):
+        """index candidates are an arbitrary integer array-like: unsorted and
+        with repeated entries (the library de-duplicates them)"""
+        if wrapper or not unsorted_idx or draw(st.integers(0, 3)) > 0:
+            return sub
+        extra = [sub[draw(st.integers(0, len(sub) - 1))]
+                 for _ in range(draw(st.integers(0, 3)))]
+        return list(draw(st.permutations(sub + extra)))
+
     if mode == "idx_unl":
         k = draw(st.integers(1, len(unl)))
         sub = sorted(draw(st.permutations(unl))[:k])
-        return {"mode": "idx", "value": sub}, "idx_unl"
+        return {"mode": "idx", "value": messy(sub)}, "idx_unl"
     if mode == "idx_any":
         k = draw(st.integers(1, n))
         sub = sorted(draw(st.permutations(list(range(n))))[:k])
-        return {"mode": "idx", "value": sub}, "idx_any"
+        return {"mode": "idx", "value": messy(sub)}, "idx_any"
     # feature rows: copies of rows, perturbed copies or fresh points
     k = draw(st.integers(1, min(n, 8)))
     rows = []
@@ -101,6 +110,8 @@ def candidates(draw, X, yid, ent, allow_feat=True, force=None,
 def n_candidates(cand, yid):
     if cand["mode"] == "none":
         return sum(1 for v in yid if v is None)
+    if cand["mode"] == "idx":
+        return len(set(cand["value"]))
     return len(cand["value"])
 
 
@@ -123,7 +134,8 @@ def pool_case(draw, names, allow_feat=True, max_n=None, force_cand=None,
     yid, _ = draw(label_pattern(n, K, task, max_labeled=n - min_unlabeled))
     cand, cmode = draw(candidates(X, yid, ent, allow_feat=allow_feat,
                                   force=force_cand,
-                                  wrapper=poolreg.is_wrapper(name)))
+                                  wrapper=poolreg.is_wrapper(name),
+                                  unsorted_idx=use_alt))
     if cand["mode"] == "feat" and not poolreg.is_wrapper(name) \
             and ent["cls"] not in poolreg.NEEDS_UNLABELED \
             and draw(st.integers(0, 2)) == 0:
